@@ -101,6 +101,15 @@ func c16Impl(in []int64) []int64 {
 				if held[t] != nil && (a+int64(len(out)))%2 == 0 {
 					seq = held[t] // obtained earlier: a view of the set when walked, not when made
 				}
+				if (a+int64(len(out)))%3 != 0 {
+					// the same sequence VALUE has been ranged over before (once in full, or left early): every range starts anew
+					n := 0
+					for range seq {
+						if n++; n >= 2 && len(out)%2 == 0 {
+							break
+						}
+					}
+				}
 				for v := range seq {
 					l = append(l, int64(v))
 					if a > 0 && int64(len(l)) >= a {
